@@ -580,6 +580,44 @@ def slot_sweep_picks(fs, full_limit=64):
     return out
 
 
+def pair_sweep_picks(fs, per_slot=5):
+    """thorough tier: two slots of a form varied together (boundary values of each), the other slots as in `spread` — fields that share
+    a word are then exercised against each other, not only against one fixed background"""
+    def few(d):
+        d = list(d)
+        if len(d) <= per_slot:
+            return d
+        ix = sorted({0, 1, len(d) // 2, len(d) - 2, len(d) - 1})
+        return [d[i] for i in ix][:per_slot]
+    out = []
+    for fi, f in enumerate(fs):
+        bg = instantiate(f, "spread")
+        if bg is None or len(f.indices) < 2:
+            continue
+        seen = set()
+        idxs = list(f.indices)
+        for a in range(len(idxs)):
+            for b in range(a + 1, len(idxs)):
+                i, j = idxs[a], idxs[b]
+                try:
+                    di = few(f.domain(i, full_limit=per_slot, prev=bg.get(idxs[a - 1]) if a > 0 else None))
+                except Exception:      # noqa
+                    continue
+                for vi in di:
+                    try:
+                        dj = few(f.domain(j, full_limit=per_slot, prev=vi if b == a + 1 else bg.get(idxs[b - 1])))
+                    except Exception:      # noqa
+                        continue
+                    for vj in dj:
+                        vals = dict(bg)
+                        vals[i], vals[j] = vi, vj
+                        key = tuple(sorted((k, str(x)) for k, x in vals.items()))
+                        if key not in seen:
+                            seen.add(key)
+                            out.append((fi, f"pair{i}_{j}", vals))
+    return out
+
+
 def is_diff(c):
     return c["dynasm_bytes"] is not None and c["llvm_bytes"] is not None and c["dynasm_bytes"] != c["llvm_bytes"]
 
